@@ -109,3 +109,52 @@ pub open spec fn all_tombstones(recs: Seq<DbRecord>, olds: Seq<ValueState>, cuto
 }
 // typed view (drives type inference for `let mut new_data = vec![]`)
 pub open spec fn drecs(v: Vec<DbRecord>) -> Seq<DbRecord> { v@ }
+
+// ---- bulk versions query (C15)
+pub use std::collections::HashMap;
+use vstd::std_specs::hash::*;
+#[verifier::external_body]
+pub broadcast proof fn axiom_label_key_model()
+    ensures #[trigger] obeys_key_model::<AkdLabel>()
+{}
+// R-MAPITER target: removes and returns an ARBITRARY entry (models every iteration order of HashMap::into_iter)
+#[verifier::external_body]
+pub fn vx_pop_any<K: core::hash::Hash + Eq, V>(m: &mut HashMap<K, V>) -> (r: Option<(K, V)>)
+    ensures
+        match r {
+            Some((k, v)) => old(m)@.contains_key(k) && old(m)@[k] == v && final(m)@ == old(m)@.remove(k),
+            None => old(m)@.dom() =~= Set::empty() && final(m)@ == old(m)@,
+        }
+{ unimplemented!() }
+
+impl<Db: Database> DbHandle<Db> {
+    // the database's bulk answer: (version, value) of the state the single query returns, for the users that have one
+    #[verifier::external_body]
+    pub async fn get_user_state_versions(&self, usernames: &[AkdLabel], flag: ValueStateRetrievalFlag) -> (r: Result<HashMap<AkdLabel, (u64, AkdValue)>, StorageError>)
+        ensures r is Ok ==> forall|l: AkdLabel| #![trigger r->Ok_0@.contains_key(l)]
+            (r->Ok_0@.contains_key(l) <==> usernames@.contains(l) && self.spec_user_state(l.0@, flag) is Ok)
+            && (r->Ok_0@.contains_key(l) ==> r->Ok_0@[l] == (self.spec_user_state(l.0@, flag)->Ok_0.version, self.spec_user_state(l.0@, flag)->Ok_0.value))
+    { unimplemented!() }
+}
+impl Transaction {
+    #[verifier::external_body]
+    pub fn get_users_states(&self, usernames: &[AkdLabel], flag: ValueStateRetrievalFlag) -> (r: HashMap<AkdLabel, ValueState>)
+        ensures forall|l: AkdLabel| #![trigger r@.contains_key(l)]
+            (r@.contains_key(l) <==> usernames@.contains(l) && self.spec_user_state(l.0@, flag) is Some)
+            && (r@.contains_key(l) ==> r@[l] == self.spec_user_state(l.0@, flag)->Some_0)
+    { unimplemented!() }
+}
+// what the bulk query must answer for one user inside/outside a transaction (same rule as the single query)
+pub open spec fn bulk_entry_ok(entry: (u64, AkdValue), d: Result<ValueState, StorageError>, t: Option<ValueState>, flag: ValueStateRetrievalFlag) -> bool {
+    match d {
+        Ok(dv) => match t {
+            Some(tv) => if txn_wins(tv, dv.epoch, flag) { entry == (tv.version, tv.value) } else { entry == (dv.version, dv.value) },
+            None => entry == (dv.version, dv.value),
+        },
+        Err(_) => match t { Some(tv) => entry == (tv.version, tv.value), None => false },
+    }
+}
+// well-formed data (from the property): per user, versions increase with epochs; rewriting a (user, epoch) record keeps its version
+pub open spec fn wf_pair(d: ValueState, t: ValueState) -> bool {
+    (d.epoch < t.epoch ==> d.version < t.version) && (d.epoch == t.epoch ==> d.version == t.version) && (d.epoch > t.epoch ==> d.version > t.version)
+}
